@@ -8,7 +8,7 @@ PROPS = {"C11": "model_checking"}
 PROP_INVS = {
     "C11": ["C11_NextAsFresh", "C11_KafkaErrKeepsOpen", "C11_ErrorReported", "C11_FailedStaysFailed", "C11_NoSpuriousNoProgress",
             "C11_TransportErrorCloses", "C11_StallIsError", "C11_WrongIdIsError", "C17_NoPanicNoHang"],
-    "C06": ["C06_OwnResponse", "C06_UniqueIds", "C06_SharedBuffersClean"],
+    "C06": ["C06_OwnResponse", "C06_UniqueIds", "C06_SharedBuffersClean", "C17_NoPanicNoHang"],
     "C17": ["C17_CutIsError", "C17_NoPanicNoHang", "C11_FailedStaysFailed", "C06_OwnResponse", "C11_TransportErrorCloses"],
 }
 MC_INVS = {
@@ -217,6 +217,20 @@ def c17_scripts(tier, lens, seed):
     return out
 
 
+def c17_concurrent_scripts(tier):
+    """Several requests in flight on one Conn when the connection is lost after k bytes of the first answer (k inside the size
+    prefix, inside the correlation id, inside the body): every pending call returns an error, none stays blocked."""
+    out = []
+    cuts = list(range(0, 13)) + [16, 20, 30]
+    for k in cuts:
+        for ng in ((2, 3) if tier == "quick" else (2, 3, 4)):
+            ops = [{"o": 1, "g": 1, "kind": "offsetAt", "arg": 1, "fault": {"cut": k, "delayMs": 40}}]
+            for g in range(2, ng + 1):
+                ops.append({"o": g, "g": g, "kind": ["partitions", "offsetAt", "lastOffset"][g % 3], "arg": g + 1, "sleepMs": 5})
+            out.append({"id": "c17-conc-g%d-k%d" % (ng, k), "kind": "c06", "versions": vers(), "ops": ops, "report": False, "codec": 0})
+    return out
+
+
 def run_scripts(ctx, scripts, tag):
     ctx.vh_keep = getattr(ctx, "vh_keep", None) or ["writer.go", "conn.go"]
     sp = os.path.join(ctx.work, "cscripts-%s.ndjson" % tag)
@@ -404,7 +418,7 @@ def run_part(ctx, prop):
             for e in t:
                 if e.get("ev") == "reply" and e.get("o") == 1:
                     lens[s["id"]] = e["len"]
-        scripts = c17_scripts(tier, lens, seed)
+        scripts = c17_scripts(tier, lens, seed) + c17_concurrent_scripts(tier)
         cov["cut_points"] = len(scripts)
         cov["frames"] = lens
     traces = run_scripts(ctx, scripts, "main")
